@@ -137,6 +137,19 @@ def _init_worker():
         pass
 
 
+def _slim(x, limit=48):
+    """evidence samples are illustrations, not replays: long value lists (a 257x256 parameter, a 70000-sample split) are summarised"""
+    if isinstance(x, dict):
+        return {k: _slim(v, limit) for k, v in x.items()}
+    if isinstance(x, (list, tuple)):
+        if len(x) > limit:
+            return [_slim(v, limit) for v in x[:8]] + [f"... {len(x) - 8} more values omitted"]
+        return [_slim(v, limit) for v in x]
+    if isinstance(x, str) and len(x) > 400:
+        return x[:400] + "..."
+    return x
+
+
 def _chunk(args):
     prop, tier, seed, start, count, want_events = args
     idx = start
@@ -166,7 +179,7 @@ def _chunk(args):
                 out["sigs"].add(st.signature())
             out["digests"].append(st.digest())
             if want_events and len(out["samples"]) < want_events and st.nontrivial:
-                out["samples"].append({"run_index": idx, "knobs": st.knobs, "events": st.events[:60]})
+                out["samples"].append({"run_index": idx, "knobs": _slim(st.knobs), "events": [_slim(e) for e in st.events[:60]]})
             if st.failures and len(out["failures"]) < 4:
                 clause, msg, detail = st.failures[0]
                 out["failures"].append({"run_index": idx, "clause": clause, "message": msg, "detail": detail,
